@@ -95,7 +95,7 @@ func (d *dec) object(addr uint64, path string) *Object {
 				attrNames[a.Name] = true
 				o.Attrs = append(o.Attrs, a)
 			case mLink:
-				l := d.decodeLink(body, at, h.version != 1)
+				l := d.decodeLink(body, at, h.version != 1, nil)
 				compactLinks = append(compactLinks, l)
 			case mLinkInfo:
 				linkInfo = d.decodeInfoMsg(body, at, what, 8)
@@ -405,33 +405,43 @@ func (d *dec) denseAttrs(o *Object, ai *linkInfoMsg) {
 	for _, a := range o.Attrs {
 		names[a.Name] = true
 	}
-	for i, r := range bt.records {
-		var id []byte
-		if hashAt == 0 {
-			id = r[4:11]
-		} else {
-			id = r[0:8]
+	base := append([]Attribute{}, o.Attrs...)
+	d.withHeapOffsetFallback(fh, func() {
+		prevHash = 0
+		o.Attrs = append([]Attribute{}, base...)
+		names = map[string]bool{}
+		for _, a := range o.Attrs {
+			names[a.Name] = true
 		}
-		hash := le32(r[hashAt:])
-		if flagsAt >= 0 && r[flagsAt]&2 != 0 {
-			d.unsupported("shared (SOHM) attribute in dense attribute storage")
+	}, func() {
+		for i, r := range bt.records {
+			var id []byte
+			if hashAt == 0 {
+				id = r[4:11]
+			} else {
+				id = r[0:8]
+			}
+			hash := le32(r[hashAt:])
+			if flagsAt >= 0 && r[flagsAt]&2 != 0 {
+				d.unsupported("shared (SOHM) attribute in dense attribute storage")
+			}
+			body, at := fh.object(d, id, fmt.Sprintf("attribute name index record #%d of %s", i, o.Path))
+			a := d.decodeAttribute(body, at)
+			a.Dense = true
+			if got := checksum([]byte(a.Name)); got != hash {
+				d.fail("B-tree v2 at 0x%x (attribute name index of %s): record #%d stores hash 0x%08x, lookup3 of the attribute name %q is 0x%08x", bta, o.Path, i, hash, a.Name, got)
+			}
+			if i > 0 && hash < prevHash {
+				d.fail("B-tree v2 at 0x%x (attribute name index of %s): record #%d (hash 0x%08x) does not sort after record #%d (hash 0x%08x)", bta, o.Path, i, hash, i-1, prevHash)
+			}
+			prevHash = hash
+			if names[a.Name] {
+				d.fail("B-tree v2 at 0x%x (attribute name index of %s): attribute name %q occurs twice", bta, o.Path, a.Name)
+			}
+			names[a.Name] = true
+			o.Attrs = append(o.Attrs, a)
 		}
-		body, at := fh.object(d, id, fmt.Sprintf("attribute name index record #%d of %s", i, o.Path))
-		a := d.decodeAttribute(body, at)
-		a.Dense = true
-		if got := checksum([]byte(a.Name)); got != hash {
-			d.fail("B-tree v2 at 0x%x (attribute name index of %s): record #%d stores hash 0x%08x, lookup3 of the attribute name %q is 0x%08x", bta, o.Path, i, hash, a.Name, got)
-		}
-		if i > 0 && hash < prevHash {
-			d.fail("B-tree v2 at 0x%x (attribute name index of %s): record #%d (hash 0x%08x) does not sort after record #%d (hash 0x%08x)", bta, o.Path, i, hash, i-1, prevHash)
-		}
-		prevHash = hash
-		if names[a.Name] {
-			d.fail("B-tree v2 at 0x%x (attribute name index of %s): attribute name %q occurs twice", bta, o.Path, a.Name)
-		}
-		names[a.Name] = true
-		o.Attrs = append(o.Attrs, a)
-	}
+	})
 	if uint64(len(bt.records)) != fh.nManaged+fh.nHuge+fh.nTiny {
 		d.fail("fractal heap at 0x%x (attributes of %s): header counts %d objects but the name index holds %d records", d.abs(ai.fheap), o.Path, fh.nManaged+fh.nHuge+fh.nTiny, len(bt.records))
 	}
